@@ -148,7 +148,7 @@ def make_intercept(ctx, tabs):
                 if key:
                     return [(A.INT(1 if O["registers"][rn][key] else 0, 8), path)]
         meth = name.rsplit("::", 1)[1]
-        if ("HashMap" in name or "HashSet" in name) and meth in ("get", "contains", "insert", "contains_key"):
+        if ("HashMap" in name or "HashSet" in name) and meth in ("get", "get_mut", "contains", "insert", "contains_key"):
             recv = args[0]
             if recv[0] == "ref":
                 if recv[1][0][0] == "D" and not recv[1][1]:
@@ -172,19 +172,20 @@ def make_intercept(ctx, tabs):
             if args[0][0] == "ref" and args[0][1][0][0] == "H":
                 fld = [p[2] for p in args[0][1][1] if isinstance(p, tuple) and p[0] == "f"][-1:]
                 if fld in (["registers"], ["xmm_registers"]):
-                    if meth == "get":
+                    # the register file as an abstract map: one store root per (map, key); get / get_mut hand out a
+                    # reference to it, insert overwrites it -- the final value of the root is what the map holds
+                    if meth in ("get", "get_mut", "insert"):
                         key = I._deref_all(path, args[1])
                         kn = S.sreg_name(facts, key)
-                        tmp = ("L", ("rf", fld[0], kn, path.tags.get("rfver", 0)), 0)
-                        path.store[tmp] = A.W(("old", fld[0], kn, path.tags.get("rfver", 0)), 128 if fld[0][0] == "x" else 64)
+                        root = ("L", ("rfslot", fld[0], kn), 0)
+                        if root not in path.store:
+                            path.store[root] = A.W(("old", fld[0], kn, 0), 128 if fld[0][0] == "x" else 64)
+                        if meth == "insert":
+                            path.store[root] = args[2]
+                            path.events.append(("rf_insert", fld[0], kn, args[2]))
+                            return [(("ret", "insert-old", (), len(path.events)), path)]
                         path.events.append(("rf_get", fld[0], kn))
-                        return [(A.SOME(("ref", (tmp, ()), False)), path)]
-                    if meth == "insert":
-                        key = I._deref_all(path, args[1])
-                        kn = S.sreg_name(facts, key)
-                        path.events.append(("rf_insert", fld[0], kn, args[2]))
-                        path.tags["rfver"] = path.tags.get("rfver", 0) + 1
-                        return [(("ret", "insert-old", (), path.tags["rfver"]), path)]
+                        return [(A.SOME(("ref", (root, ()), meth == "get_mut")), path)]
         return None
     return icpt
 
@@ -237,9 +238,15 @@ def accessors(ctx, tabs):
                     continue
                 bad = None
                 for o in rets:
-                    ins = [e for e in o.path.events if e[0] == "rf_insert"]
+                    ins = []
+                    for root_, val_ in o.path.store.items():
+                        if root_[0] == "L" and isinstance(root_[1], tuple) and root_[1] and root_[1][0] == "rfslot":
+                            init_ = A.W(("old", root_[1][1], root_[1][2], 0), 128 if root_[1][1][0] == "x" else 64)
+                            if val_ != init_:
+                                ins.append(("rf_insert", root_[1][1], root_[1][2], val_))
                     gets = [e for e in o.path.events if e[0] == "rf_get"]
-                    stores = [e for e in o.path.events if e[0] in ("store", "mutcall")]
+                    stores = [e for e in o.path.events if e[0] in ("store", "mutcall") and not (
+                        e[0] == "store" and e[1][0][0] == "L" and isinstance(e[1][0][1], tuple) and e[1][0][1][:1] == ("rfslot",))]
                     if stores:
                         bad = bad or "touches other state: %s" % U.show_event(facts, stores[0])
                     if mode == "write":
